@@ -6,7 +6,7 @@ set -e
 S=$(mktemp -d /tmp/idsp-cov.XXXXXX)
 T=$(dirname "$(rustup which --toolchain nightly rustc)")/../lib/rustlib/x86_64-unknown-linux-gnu/bin
 cd /verif/harness
-CARGO_NET_OFFLINE=true RUSTFLAGS="--cfg idsp_verif -C instrument-coverage" CARGO_TARGET_DIR=$S/target \
+LLVM_PROFILE_FILE=$S/build-%p.profraw CARGO_NET_OFFLINE=true RUSTFLAGS="--cfg idsp_verif -C instrument-coverage" CARGO_TARGET_DIR=$S/target \
   cargo +nightly build --offline --profile checked >/dev/null 2>&1
 B=$S/target/checked/drive
 FAMS=$(python3 -c "import sys; sys.path.insert(0,'/verif'); import props; print(','.join(sorted({f for c in props.PROPS.values() for f in c['families']})))")
